@@ -47,7 +47,7 @@ def run(prog):
     n = 0
     for name, self_adt, parent in TRAVERSALS:
         if parent:
-            fns = [f for f in prog.lib_fns if f.name == name and f.parent == parent]
+            fns = [f for f in prog.lib_fns if f.parent == parent and f.kind != "Closure"]   # the nested helper, whatever its name
         else:
             fns = prog.find(name=name, self_adt=self_adt, unit="rsdd-lib")
         if len(fns) != 1:
@@ -115,6 +115,6 @@ def run(prog):
                                 % (fresh[0], "complemented" if nu else "regular", show(other)[:40]) if ok else
                                 "result of the %s pass is stored in slot %d (the %s slot)"
                                 % ("complemented" if nu else "regular", fresh[0], "complemented" if fresh[0] == 0 else "regular")))
-    if n < 14:
-        raise CheckerError("MS: expected >= 14 memo slot sites, found %d" % n)
+    if n < 8:
+        raise CheckerError("MS: expected >= 8 memo slot sites, found %d" % n)
     return out
